@@ -353,7 +353,7 @@ Fixpoint to_entry (fuel : nat) (c : gctx) (busy : list nat) (n : dnode) {struct 
         let '(i, ei) := io KInput s_input input in
         let '(o, eo) := io KOutput s_output output in
         let r := match i, o with
-                 | None, None => if action then None else Some (None, None)
+                 | None, None => Some (None, None)
                  | _, _ => Some (i, o)
                  end in
         (Entry name KDir TSUnset TSUnset [] [] None [] None None (Some []) r, ei || eo)
